@@ -54,3 +54,103 @@ CASES = {
     "step_on_strict": [dict(id="on-with-other-dynamic-prop", options=dict(optimize=True), source="const a = <div on={x} id={y} />;", expect=[r"\[\s*(\"id\",\s*\"on\"|\"on\",\s*\"id\")\s*\]"])],
     "step_nativeon": [dict(id="nativeOn-transformOn", options=dict(optimize=True, transformOn=True), source="const a = <div nativeOn={x} />;", forbid=[r"\[\s*\"nativeOn\"\s*\]"])],
 }
+
+
+# ---------------------------------------------------------------------------------------------------------------
+# Families: replay cases generated from the harness shape.  The expected values come from a small oracle that is the
+# statement-level contract for ONE attribute on ONE element (the same `plain_effect` + `final_flags` as the shared spec).
+def _single_attr_expect(name, comp, ton):
+    """(flag, dynamic_props) for `<host NAME={x} />` with a dynamic value, under optimize"""
+    n = name
+    is_listener = len(n) > 2 and n.startswith("on") and not n[2].islower()
+    if n == "ref":
+        return 512, []
+    if ton and n in ("on", "nativeOn"):
+        return 0, []
+    cls = n == "class" and not comp
+    sty = n == "style" and not comp
+    hyd = (not comp) and is_listener and n.lower() != "onclick" and n != "onUpdate:modelValue"
+    dp = [] if (cls or sty or n in ("key", "on")) else [n]
+    flag = (2 if cls else 0) + (4 if sty else 0) + (8 if dp else 0) + (32 if hyd else 0)
+    return flag, dp
+
+
+def _attr_cases(name):
+    out = []
+    for comp in (False, True):
+        for ton in (False, True):
+            host = "Comp" if comp else "div"
+            flag, dp = _single_attr_expect(name, comp, ton)
+            expect = []
+            forbid = []
+            if flag == 0:
+                forbid.append(r"_createVNode\([^;]*null,\s*\d+")          # no flag argument at all
+            else:
+                expect.append(r"null,\s*%d\b" % flag)
+            if dp:
+                expect.append(r"\[\s*\"%s\"\s*\]" % name)
+            else:
+                forbid.append(r"\[\s*\"%s\"\s*\]" % name)
+            out.append(dict(id="%s-%s-%s" % (name, host, "transformOn" if ton else "plain"), options=dict(optimize=True, transformOn=ton),
+                            source="const a = <%s %s={x} />;" % (host, name), expect=expect, forbid=forbid))
+    return out
+
+
+for _h, _n in (("step_ref", "ref"), ("step_class", "class"), ("step_style", "style"), ("step_key", "key"), ("step_on", "on"), ("step_nativeon", "nativeOn"),
+               ("step_onclick_camel", "onClick"), ("step_onclick_lower", "onclick"), ("step_onupdate_mv", "onUpdate:modelValue"), ("step_listener", "onFoo"),
+               ("step_other", "id"), ("step_listener_modular", "onFoo")):
+    CASES.setdefault(_h, _attr_cases(_n))
+
+CASES.setdefault("step_spread_flag_object", [dict(id="object-spread-mergeProps-%s" % mp, options=dict(optimize=True, mergeProps=mp), source="const a = <div {...{ id: x }} title={t} />;", expect=[r",\s*16\b"]) for mp in (True, False)])
+CASES.setdefault("step_spread_flag_expr", [dict(id="spread-mergeProps-%s" % mp, options=dict(optimize=True, mergeProps=mp), source="const a = <div {...obj} title={t} />;", expect=[r",\s*16\b"]) for mp in (True, False)])
+CASES.setdefault("asm_repeated_plain", [dict(id="repeated-id-mergeProps-off", options=dict(mergeProps=False), source="const a = <div id=\"a\" {...x} id=\"b\" />;", expect=[r"\"id\": \"a\"[\s\S]*\.\.\.x[\s\S]*\"id\": \"b\""])])
+CASES.setdefault("asm_repeated_class", [dict(id="repeated-class-mergeProps-off", options=dict(mergeProps=False), source="const a = <A {...a} class=\"x\" class=\"y\" />;", expect=[r"\"class\": \"x\"[\s\S]*\"class\": \"y\""])])
+
+_TAGS = {
+    "tag_div": ("div", [r"_createVNode\(\"div\""]), "tag_svg": ("svg", [r"_createVNode\(\"svg\""]), "tag_a": ("a", [r"_createVNode\(\"a\""]),
+    "tag_camel_svg": ("clipPath", [r"_createVNode\(\"clipPath\""]), "tag_foo_comp": ("Foo", [r"_resolveComponent\(\"Foo\"\)"]),
+    "tag_lower_unknown": ("foo", [r"_resolveComponent\(\"foo\"\)"]), "tag_upper_div": ("Div", [r"_resolveComponent\(\"Div\"\)"]),
+    "tag_keepalive": ("KeepAlive", [r"_resolveComponent\(\"KeepAlive\"\)"]), "tag_fragment": ("Fragment", [r"_createVNode\(_Fragment"]),
+}
+for _h, (_t, _e) in _TAGS.items():
+    CASES.setdefault(_h, [dict(id="unbound-" + _t, source="const a = <%s />;" % _t, expect=_e),
+                          dict(id="bound-" + _t, source="const %s = 1; const a = <%s />;" % (_t, _t), expect=([r"_createVNode\(%s," % _t] if _t[0].isupper() and _t not in ("Fragment",) else _e)) if _t.isidentifier() else dict(id="dup-" + _t, source="const a = <%s />;" % _t, expect=_e)])
+CASES.setdefault("tag_member_fragment", [dict(id="Vue.Fragment", source="const a = <Vue.Fragment>a{b}</Vue.Fragment>;", forbid=[r"default:\s*\(\)\s*=>"])])
+CASES.setdefault("tag_member_fragment_alias", [dict(id="Vue._Fragment", source="const a = <Vue._Fragment>a{b}</Vue._Fragment>;", forbid=[r"default:\s*\(\)\s*=>"])])
+CASES.setdefault("tag_member_keepalive", [dict(id="Vue.KeepAlive", source="const a = <Vue.KeepAlive>a{b}</Vue.KeepAlive>;", forbid=[r"default:\s*\(\)\s*=>"])])
+
+_DIRS = {"dirspell_kebab": ("v-foo", "foo"), "dirspell_camel": ("vFoo", "foo"), "dirspell_kebab_inner": ("v-my-dir", "my-dir"), "dirspell_name_starts_with_v": ("v-vis", "vis"),
+         "dirspell_multibyte_name": ("v-él", "él")}
+for _h, (_a, _n) in _DIRS.items():
+    CASES.setdefault(_h, [dict(id=_a, source="const a = <div %s={x} />;" % _a, expect=[r"_resolveDirective\(\"%s\"\),\s*x" % _n])])
+CASES.setdefault("dirspell_show", [dict(id="v-show", source="const a = <div v-show={x} />;", expect=[r"\[\s*_vShow,\s*x"])])
+CASES.setdefault("dirspell_ns_arg", [dict(id="v-foo:bar", source="const a = <div v-foo:bar={x} />;", expect=[r"_resolveDirective\(\"foo\"\),\s*x,\s*\"bar\""])])
+CASES.setdefault("dirspell_ns_name_starts_with_v", [dict(id="v-vis:top", source="const a = <div v-vis:top={x} />;", expect=[r"_resolveDirective\(\"vis\"\),\s*x,\s*\"top\""])])
+CASES.setdefault("dirspell_suffix_with_array_form", [dict(id="v-foo_a=[x]", source="const a = <div v-foo_a={[x]} />;", expect=[r"x,\s*void 0,\s*\{\s*a: true"])])
+CASES.setdefault("dirspell_digit_modifier", [dict(id="v-foo_2x", source="const a = <div v-foo_2x={x} />;", forbid=[r"[{,]\s*2x:"])])
+CASES.setdefault("dirpriv_is_identifier_name", [dict(id="v-foo_2x", source="const a = <div v-foo_2x={x} />;", forbid=[r"[{,]\s*2x:"]), dict(id="['2x']", source="const a = <div v-foo={[x, ['2x']]} />;", forbid=[r"[{,]\s*2x:"])])
+CASES.setdefault("dirspell_empty_name", [dict(id="v-_a", source="const a = <div v-_a={x} />;")])
+CASES.setdefault("dirpriv_lowercase_first_letter", [dict(id="v-", source="const a = <div v-={x} />;"), dict(id="v-_lazy", source="const a = <div v-_lazy={x} />;"), dict(id="vMyDir", source="const a = <div vMyDir={x} />;", expect=[r"_resolveDirective\(\"myDir\"\)"])])
+CASES.setdefault("dirpriv_lowercase_first_letter_multibyte", [dict(id="v-élan", source="const a = <div v-élan={x} />;", expect=[r"_resolveDirective\(\"élan\"\)"])])
+
+_MODEL = {"resolve_model_input_notype": ("<input v-model={x} />", "vModelText"), "resolve_model_input_checkbox": ("<input type=\"checkbox\" v-model={x} />", "vModelCheckbox"),
+          "resolve_model_input_radio": ("<input type=\"radio\" v-model={x} />", "vModelRadio"), "resolve_model_input_text": ("<input type=\"text\" v-model={x} />", "vModelText"),
+          "resolve_model_input_dynamic": ("<input type={t} v-model={x} />", "vModelDynamic"), "resolve_model_input_type_after_other": ("<input id=\"checkbox\" type=\"radio\" v-model={x} />", "vModelRadio"),
+          "resolve_model_select": ("<select v-model={x} />", "vModelSelect"), "resolve_model_select_with_type": ("<select type=\"checkbox\" v-model={x} />", "vModelSelect"),
+          "resolve_model_textarea": ("<textarea v-model={x} />", "vModelText"), "resolve_model_other_element": ("<div v-model={x} />", "vModelText")}
+for _h, (_s, _d) in _MODEL.items():
+    CASES.setdefault(_h, [dict(id=_h, source="const a = %s;" % _s, expect=[r"\[\s*_%s,\s*x" % _d])])
+CASES.setdefault("vmodel_ns_arg_array_form", [dict(id="v-model:title=[x]", source="const a = <Comp v-model:title={[x]} />;", expect=[r"\"title\": x", r"\"onUpdate:title\""]),
+                                              dict(id="v-models", source="const a = <Comp v-models={[[a], [b, \"title\"]]} />;", expect=[r"\"title\": b", r"\"onUpdate:title\""])])
+
+CASES.setdefault("pragma_comment_over_option", [dict(id="comment-and-option", options=dict(pragma="fromOption"), source="/* @jsx fromComment */\nconst a = <div />;", expect=[r"fromComment\(\"div\""], forbid=[r"fromOption\("])])
+CASES.setdefault("pragma_option", [dict(id="option", options=dict(pragma="h"), source="const a = <div />;", expect=[r"= h\(\"div\""], forbid=[r"createVNode"])])
+CASES.setdefault("pragma_none", [dict(id="none", source="const a = <div />;", expect=[r"_createVNode\(\"div\"", r"createVNode as _createVNode"])])
+CASES.setdefault("define_component_identification", [
+    dict(id="shadowing-local", syntax="tsx", options=RT, source="import { defineComponent } from 'vue'; function f() { function defineComponent(x: any) { return x } return defineComponent((p: { a: string }) => {}) }", forbid=[r"props:\s*\{\s*a:"]),
+    dict(id="vue-import", syntax="tsx", options=RT, source="import { defineComponent } from 'vue'; defineComponent((p: { a: string }) => {});", expect=[r"props:\s*\{\s*a:"])])
+CASES.setdefault("jsx_text_empty_iff_dropped", [dict(id="tab-indented", source="const a = <ul>\n\t<li/>\n</ul>;", forbid=[r"_createTextVNode\(\"\"\)"])])
+CASES.setdefault("children_text_bound_ident", [dict(id="bound-ident-child", options=O, source="const x = 1; const a = <Comp>a{x}</Comp>;", expect=[r"_: 2"])])
+CASES.setdefault("fragment_name_rule", [dict(id="_Fragment-before-<>", source="import { Fragment as _Fragment } from 'vue'; const a = <_Fragment>a{b}</_Fragment>;", forbid=[r"default:\s*\(\)\s*=>"])])
+CASES.setdefault("tagframe_alias_text", [dict(id="_Fragment-before-<>", source="import { Fragment as _Fragment } from 'vue'; const a = <_Fragment>a{b}</_Fragment>;", forbid=[r"default:\s*\(\)\s*=>"])])
+CASES.setdefault("regex_visit_invalid_str", [dict(id="invalid-pattern", options=dict(customElementPatterns=["("]), source="const a = <div />;", allow_bad_options=True)])
